@@ -790,3 +790,177 @@ Section RustcOracle.
           destruct (Nat.eqb_spec nrest 1); destruct (Nat.eqb_spec nrest 0); intros Hfm; lia.
   Qed.
 End RustcOracle.
+
+(* ------------------------------------------------------------------ the executable reading *)
+
+Lemma mem_iff x l : mem x l = true <-> In x l.
+Proof.
+  unfold mem. rewrite existsb_exists. split.
+  - intros (y & Hy & He). apply Z.eqb_eq in He. subst. exact Hy.
+  - intros H. exists x. split; [ exact H | apply Z.eqb_refl ].
+Qed.
+
+Lemma ty_eqb_iff : forall a b, ty_eqb a b = true <-> a = b.
+Proof.
+  induction a as [x | x | x | a IH]; destruct b as [y | y | y | b]; cbn;
+    try (split; intros H; [ discriminate H | inversion H ]).
+  - rewrite Z.eqb_eq. split; [ intros ->; reflexivity | intros H; inversion H; reflexivity ].
+  - rewrite Nat.eqb_eq. split; [ intros ->; reflexivity | intros H; inversion H; reflexivity ].
+  - rewrite Nat.eqb_eq. split; [ intros ->; reflexivity | intros H; inversion H; reflexivity ].
+  - rewrite IH. split; [ intros ->; reflexivity | intros H; inversion H; reflexivity ].
+Qed.
+
+Lemma drops_iff E t : drops E t = true <-> impls_drop_ty E t.
+Proof.
+  unfold drops, impls_drop_ty. destruct t as [q | | |].
+  - split; [ intros H; exists q; auto | intros (q' & Hq & H); inversion Hq; subst; exact H ].
+  - split; [ discriminate | intros (q & H & _); discriminate H ].
+  - split; [ discriminate | intros (q & H & _); discriminate H ].
+  - split; [ discriminate | intros (q & H & _); discriminate H ].
+Qed.
+
+Lemma pat_diag_nil E ps t : pat_diag E ps t = [] <-> pat_fits E ps (peel t).
+Proof.
+  unfold pat_diag, pat_fits. destruct ps as [p fs | k | k [|]]; destruct (peel t) as [q | k' | n | t'];
+    try (split; [ discriminate | intros [] ]).
+  - destruct (Z.eqb_spec p q) as [-> | Hne].
+    + destruct fs as [| f0 fs0].
+      * destruct (fields E q) as [| g0 gs] eqn:Hg.
+        -- split; [ intros _; split; [ reflexivity | intros f; reflexivity ] | reflexivity ].
+        -- split; [ discriminate | ]. intros [_ H]. specialize (H g0). cbn in H.
+           exfalso. apply H. left. reflexivity.
+      * rewrite app_nil_iff.
+        assert (H1 : (if forallb (fun f => mem f (fields E q)) (f0 :: fs0) then [] else [d0 KE0026]) = [] <->
+                     forall f, In f (f0 :: fs0) -> In f (fields E q)).
+        { destruct (forallb (fun f => mem f (fields E q)) (f0 :: fs0)) eqn:Hf.
+          - rewrite forallb_forall in Hf. split; [ | reflexivity ]. intros _ f Hin. apply mem_iff. auto.
+          - split; [ discriminate | ]. intros H. exfalso.
+            assert (Ht : forallb (fun f => mem f (fields E q)) (f0 :: fs0) = true)
+              by (apply forallb_forall; intros f Hin; apply mem_iff; auto).
+            congruence. }
+        assert (H2 : (if forallb (fun f => mem f (f0 :: fs0)) (fields E q) then [] else [d0 KE0027]) = [] <->
+                     forall f, In f (fields E q) -> In f (f0 :: fs0)).
+        { destruct (forallb (fun f => mem f (f0 :: fs0)) (fields E q)) eqn:Hf.
+          - rewrite forallb_forall in Hf. split; [ | reflexivity ]. intros _ f Hin. apply mem_iff. auto.
+          - split; [ discriminate | ]. intros H. exfalso.
+            assert (Ht : forallb (fun f => mem f (f0 :: fs0)) (fields E q) = true)
+              by (apply forallb_forall; intros f Hin; apply mem_iff; auto).
+            congruence. }
+        rewrite H1, H2. split.
+        -- intros [Ha Hb]. split; [ reflexivity | ]. intros f. split; auto.
+        -- intros [_ H]. split; intros f Hin; apply H; exact Hin.
+    + split; [ discriminate | intros [H _]; congruence ].
+  - destruct (Nat.eqb_spec k k'); split; try discriminate; try reflexivity; auto; intros; congruence.
+  - destruct (Nat.leb_spec k n); split; try discriminate; try reflexivity; auto; intros; lia.
+  - destruct (Nat.eqb_spec k n); split; try discriminate; try reflexivity; auto; intros; congruence.
+Qed.
+
+(** the concrete oracles of the executable model satisfy R1, R2, R3 (so the hypotheses of
+    Section RustcOracle are satisfiable), and the model's verdict is [accepts] with them *)
+Definition conc_pat (E : env) (ps : pshape) (t : ty) : bool := is_nil (pat_diag E ps t).
+
+Lemma conc_R1 E ps t : conc_pat E ps t = true <-> pat_fits E ps (peel t).
+Proof. unfold conc_pat. rewrite is_nil_iff. apply pat_diag_nil. Qed.
+
+Lemma expands_inl_nonempty d ds : destructure_expands d = inl ds -> ds <> [].
+Proof.
+  unfold destructure_expands.
+  destruct (d_shape d); destruct (d_elems d) as [| e0 es0];
+    repeat match goal with
+           | |- context [ if ?c then _ else _ ] => destruct c
+           | |- context [ match walk_names ?a ?b with _ => _ end ] => destruct (walk_names a b)
+           end;
+    intros H; inversion H; discriminate.
+Qed.
+
+Lemma diags_accepts E d :
+  destructure_diags E d = [] <-> accepts (conc_pat E) ty_eqb (drops E) d = true.
+Proof.
+  unfold destructure_diags, accepts. destruct (destructure_expands d) as [ds | cs] eqn:He.
+  - split; [ | discriminate ]. intros ->. exfalso. exact (expands_inl_nonempty d [] He eq_refl).
+  - clear He. induction cs as [| c r IH]; cbn [flat_map forallb].
+    + split; reflexivity.
+    + rewrite app_nil_iff, andb_true_iff, IH.
+      assert (Hc : check_diag E c = [] <-> check_holds (conc_pat E) ty_eqb (drops E) c = true).
+      { destruct c as [ps t | a b | t]; cbn [check_diag check_holds].
+        - unfold conc_pat. rewrite is_nil_iff. reflexivity.
+        - destruct (ty_eqb a b); split; try discriminate; reflexivity.
+        - destruct (drops E t); cbn; split; try discriminate; reflexivity. }
+      rewrite Hc. reflexivity.
+Qed.
+
+(** closed form: no hypothesis left, the three rustc behaviours are the ones [check_diag] computes *)
+Theorem destructure_accepts_iff E d :
+  d_elems d <> [] -> (destructure_diags E d = [] <-> destr_ok E d).
+Proof.
+  intros Hne. rewrite diags_accepts.
+  apply (accepts_iff E (conc_pat E) ty_eqb (drops E) (conc_R1 E) ty_eqb_iff (drops_iff E) d Hne).
+Qed.
+
+(** `..` in a struct / tuple struct / tuple pattern is always rejected *)
+Theorem destructure_rejects_rest E d :
+  d_shape d <> Array -> (exists e, In e (d_elems d) /\ is_rest e = true) -> destructure_diags E d <> [].
+Proof.
+  intros Hs (e & Hin & He) Hd.
+  assert (Hne : d_elems d <> []) by (intros H; rewrite H in Hin; destruct Hin).
+  apply (destructure_accepts_iff E d Hne) in Hd. destruct Hd as (Hr & _).
+  unfold rest_ok in Hr.
+  assert (Hno : no_rest (d_elems d)) by (destruct (d_shape d); try congruence; tauto).
+  unfold no_rest in Hno. rewrite Forall_forall in Hno. specialize (Hno e Hin). congruence.
+Qed.
+
+(** ... in a braced struct by the compile_error! arm, whatever the types are *)
+Theorem destructure_rest_struct_arm E d :
+  d_shape d = Braced -> (exists e, In e (d_elems d) /\ is_rest e = true) ->
+  destructure_diags E d = [d0 KRestStruct].
+Proof.
+  intros Hs (e & Hin & He). unfold destructure_diags, destructure_expands. rewrite Hs.
+  destruct (d_elems d) as [| e0 es0] eqn:Hes; [ destruct Hin | ].
+  assert (Hex : existsb is_rest (e0 :: es0) = true) by (apply existsb_exists; exists e; auto).
+  rewrite Hex. reflexivity.
+Qed.
+
+Theorem destructure_rejects_reference E d :
+  d_elems d <> [] -> is_ref (d_ty d) = true -> destructure_diags E d <> [].
+Proof.
+  intros Hne Hr Hd. apply (destructure_accepts_iff E d Hne) in Hd.
+  destruct Hd as (_ & _ & H & _). congruence.
+Qed.
+
+Theorem destructure_rejects_drop E d :
+  d_elems d <> [] -> impls_drop_ty E (d_ty d) -> destructure_diags E d <> [].
+Proof.
+  intros Hne Hr Hd. apply (destructure_accepts_iff E d Hne) in Hd.
+  destruct Hd as (_ & _ & _ & H & _). contradiction.
+Qed.
+
+Theorem destructure_rejects_field_mismatch E d :
+  d_elems d <> [] -> ~ fields_match E d (d_ty d) -> destructure_diags E d <> [].
+Proof.
+  intros Hne Hr Hd. apply (destructure_accepts_iff E d Hne) in Hd.
+  destruct Hd as (_ & _ & _ & _ & H). contradiction.
+Qed.
+
+(** FINDING (harmless): the EMPTY patterns `P {}`, `P()`, `()`, `[]` expand to a plain
+    `let <pattern> = <value>;` — no guard is expanded, so a reference (and, for structs, a Drop
+    type) is accepted.  Nothing is moved out of the value, so no double drop or leak can
+    follow; but the statement "destructure! applied to a reference / to a Drop type does not
+    compile" fails for them.  Witnesses (they replay on rustc: `destructure!{() = &()}`,
+    `destructure!{[] = &[0u8; 0]}`, `struct F {} impl Drop for F ..; destructure!{F {} = F {}}`). *)
+Definition env0 (drop : bool) : env :=
+  {| fields := fun _ => []; impls_drop := fun _ => drop; tuple_like := fun _ => false |}.
+
+Theorem empty_pattern_unguarded :
+  (exists E d, d_elems d = [] /\ is_ref (d_ty d) = true /\ destructure_diags E d = []) /\
+  (exists E d, d_elems d = [] /\ impls_drop_ty E (d_ty d) /\ destructure_diags E d = []).
+Proof.
+  split.
+  - exists (env0 false),
+      {| d_shape := Tuple; d_pk := PkPath; d_path := 0%Z; d_ann := None; d_elems := [];
+         d_ty := TRef (TTuple 0) |}.
+    repeat split; reflexivity.
+  - exists (env0 true),
+      {| d_shape := Braced; d_pk := PkPath; d_path := 0%Z; d_ann := None; d_elems := [];
+         d_ty := TNamed 0%Z |}.
+    repeat split; try reflexivity. exists 0%Z. split; reflexivity.
+Qed.
